@@ -23,7 +23,8 @@ message, or anything after it on the connection, fails the property.
   ws-before-first-field  2.2: whitespace-preceded lines (SP, HTAB; also VT, FF, bare CR as in the same section) between start-line
                        and first field: reject or ignore them
   obs-fold             5.2: a server MUST reject or "replace each received obs-fold with one or more SP octets"
-  empty-list-element   RFC 9110 5.6.1: recipients MUST parse and ignore a reasonable number of empty list elements (TE only)
+  empty-list-element   RFC 9110 5.6.1: recipients MUST parse and ignore a reasonable number of empty list elements (Transfer-Encoding;
+                       Content-Length when it is read as a list, provided a member is left)
   cl-duplicate         6.3 #5 / RFC 9110 8.6: identical Content-Length values, as a list or as repeated fields, MAY be accepted
   te-other-codings     6.1: transfer codings before the final `chunked` (a recipient may answer 501)
   te-and-cl            6.1/6.3 #3: Transfer-Encoding overrides Content-Length; the server "MUST close the connection after
@@ -328,9 +329,12 @@ def ref_message(data, i):
     elif cl_vals:
         nums = []
         for v in cl_vals:
-            for el in v.split(b","):
-                nums.append(el.strip(WSP))
-        if any(not re.fullmatch(rb"[0-9]+", x) for x in nums):
+            els = [el.strip(WSP) for el in v.split(b",")]
+            if len(els) > 1 and b"" in els:
+                tol.append("empty-list-element")
+                els = [el for el in els if el != b""]
+            nums += els
+        if not nums or any(not re.fullmatch(rb"[0-9]+", x) for x in nums):
             return ("reject", "content-length-invalid")
         vals = {int(x) for x in nums}
         if len(vals) > 1:
